@@ -68,10 +68,12 @@ def roots(prog):
             if "mpd_client::responses::" in n:
                 out.append(b.id)
                 n_acc += 1
-    # frame / response accessors of the protocol crate (reading the decoded value)
+    # frame / response accessors of the protocol crate (reading the decoded value); a private helper with a single call
+    # site belongs to its caller (reached through it, or part of the builder, which is C09's)
+    owner = panics.single_caller_owner(prog, callgraph(prog))
     for b in prog.bodies.values():
         if b.kind in ("Fn", "AssocFn") and b.crate == "mpd_protocol" and "mpd_protocol::response::" in norm(b.name) \
-                and "ResponseBuilder" not in b.name and "ResponseFieldCache" not in b.name:
+                and "ResponseBuilder" not in b.name and "ResponseFieldCache" not in b.name and norm(b.name) not in owner:
             out.append(b.id)
             n_acc += 1
     return out, n_cmd, n_list, n_acc
